@@ -6,7 +6,9 @@ export CARGO_NET_OFFLINE=true
 mkdir -p work out evidence
 (cd harness && cargo build --release --offline --quiet)
 cd spec
+# Proof_*.tla import the TLAPS standard library (NaturalsInduction, TLAPS), which lives with tlapm
+TLAPSLIB=/opt/veriftools/tlapm/lib/tlapm/stdlib
 for f in *.tla; do
-  java -cp /opt/veriftools/tla/tla2tools.jar:/opt/veriftools/tla/CommunityModules-deps.jar tla2sany.SANY "$f" > ../work/sany.log 2>&1 || { cat ../work/sany.log; echo "SANY failed on $f"; exit 1; }
+  java -DTLA-Library=$TLAPSLIB -cp /opt/veriftools/tla/tla2tools.jar:/opt/veriftools/tla/CommunityModules-deps.jar tla2sany.SANY "$f" > ../work/sany.log 2>&1 || { cat ../work/sany.log; echo "SANY failed on $f"; exit 1; }
 done
 echo setup ok
